@@ -231,6 +231,11 @@ def run(chk):
         else:
             c_in = c
         rs = core.call_real(lambda: float(st.powerlaw_mle_alpha(c_in, cmin=cmin, method="simple")))
+        # the method given POSITIONALLY (third argument), as the signature allows
+        rs_pos = core.call_real(lambda: float(st.powerlaw_mle_alpha(c_in, cmin, "simple")))
+        if rs_pos != rs:
+            chk.violation("C17|powerlaw_mle_alpha|positional-method", f"powerlaw_mle_alpha(c, cmin, 'simple') = {rs_pos} differs from the keyword form {rs}",
+                          {"c": c, "cmin": cmin})
         rc = core.call_real(lambda: float(st.powerlaw_mle_alpha(c_in, cmin=cmin, method="continuitycorrection")))
         re_ = core.call_real(lambda: float(st.powerlaw_mle_alpha(c, cmin=cmin, method="exact")))
         chk.case(nontrivial_key=("mle", tuple(c), cmin))
